@@ -36,7 +36,7 @@ kinds={"agent-sim":("/verif/sim/harness","deterministic simulation of the whole 
        "ebpf-sim":("/verif/sim/ebpf-sim","the repository's eBPF C program compiled natively, run by simulated kernel threads under shuttle's seeded schedulers against a model of the BPF helpers and maps, with the real user-space encoders/decoders on the other side of the maps"),
        "setup-sim":("/verif/sim/setup-sim","the real proxy_agent_setup binary in a private mount namespace with a stand-in service manager, seeded command histories against a file-tree reference model")}
 m={"version":1,
- "setup_cmd":"cd /verif/sim && CARGO_NET_OFFLINE=true cargo build --release --offline && : > /verif/.build/target/release/ebpf_cgroup.o",
+ "setup_cmd":"cd /verif/sim && CARGO_NET_OFFLINE=true cargo build --release --offline && : > /verif/.build/target/release/ebpf_cgroup.o && cd /repo && CARGO_NET_OFFLINE=true CARGO_TARGET_DIR=/verif/.build/setup-target cargo build -p proxy_agent_setup --release --offline",
  "hooks":{"guard":"azure_guestproxyagent_verif","enable":"none needed: zero hooks; repository sources are compiled unmodified through shadow manifests with substituted dependencies (tokio facade, aya/sysinfo/uzers stand-ins), libc seams are defined in the harness executable","baseline_off_cmd":"cd /repo && cargo test --workspace --no-fail-fast --offline","source_commits":[],"add_only":True},
  "engines":[{"name":e,"path":kinds[e][0],"serves_properties":sorted(ps),"kind_free_text":kinds[e][1]} for e,ps in engines.items()],
  "checks":checks,
